@@ -111,6 +111,10 @@ def sharing(parsed, nonshareable_rules, builds):
                     bad.append(("nonshareable-object-not-private", inp, bi["outs"]))
             for j in range(i + 1, len(bs)):
                 bj = bs[j]
+                if ns_i and base_name(bj["rule"]) in nonshareable_rules and bi["outs"] == bj["outs"]:
+                    # two DIFFERENT statements (identical ones are one line of the file) of a non-shareable rule for
+                    # one source come from different builds: each build has its own object
+                    bad.append(("nonshareable-object-shared-between-builds", inp, bi["outs"]))
                 if ns_i or base_name(bj["rule"]) in nonshareable_rules: continue
                 same_out = bi["outs"] == bj["outs"]
                 same_content = rules.get(bi["rule"]) == rules.get(bj["rule"]) and base_name(bi["rule"]) == base_name(bj["rule"]) \
